@@ -86,6 +86,67 @@ func TestTriviaVariants(t *testing.T) {
 	})
 }
 
+// parseLoneCR parses a rendering whose inter-token whitespace may contain lone CRs. Open finding
+// lone-cr-newline: the scanner reports each such CR as an unexpected character (and leaves it out of
+// the tokens). Exactly that is tolerated — every reported error must be that warning, positioned on a
+// CR that is not followed by LF — so that the tree can still be compared; any other error is reported.
+func parseLoneCR(src []byte, v px.Ver) (px.Result, string, int) {
+	r := px.Parse(src, v, true)
+	if r.Panic != "" {
+		return r, "panic: " + r.Panic, 0
+	}
+	if r.Root == nil {
+		return r, "nil root", 0
+	}
+	tolerated := 0
+	for _, e := range r.Errs {
+		ok := e.Pos != nil && strings.HasPrefix(e.Msg, "WARNING: Unexpected character in input: '\r'") && e.Pos.StartPos >= 0 && e.Pos.StartPos < len(src) &&
+			src[e.Pos.StartPos] == '\r' && (e.Pos.StartPos+1 >= len(src) || src[e.Pos.StartPos+1] != '\n')
+		if !ok {
+			return r, "errors other than the known lone-CR warning: " + px.ErrString(r.Errs), 0
+		}
+		tolerated++
+	}
+	return r, "", tolerated
+}
+
+// TestLoneCRVariants: the region behind finding lone-cr-newline is not switched off: renderings with
+// lone CRs in ordinary inter-token whitespace are generated, the known warnings are tolerated (and
+// counted), and the tree must still be the reference tree — a lone CR may cost a warning today, it
+// must never change which nodes the tree contains.
+func TestLoneCRVariants(t *testing.T) {
+	if !harness.FindingOpen("lone-cr-newline") {
+		t.Skip("finding lone-cr-newline is not open: the ordinary variants contain lone CRs")
+	}
+	harness.Check(t, "lone-cr-variants", 6000, 250000, func(rt *rapid.T) {
+		v := rapid.SampledFrom(px.KeyVersions).Draw(rt, "version")
+		c := progs.Draw(rt, v, progs.Options(v), 1, 4)
+		refSrc := c.G.Render(c.Root, progs.Policy(rt, phpgen.PolicySpace, nil)).Src
+		rr, bad := parseOK(refSrc, v)
+		if bad != "" {
+			return // the ordinary variants report this
+		}
+		ref := astx.Clone(rr.Root)
+		pol := progs.Policy(rt, rapid.SampledFrom([]phpgen.PolicyKind{phpgen.PolicyWhitespace, phpgen.PolicyFull}).Draw(rt, "policy"), nil)
+		pol.LoneCRInGaps = true
+		src := append([]byte{}, c.G.Render(c.Root, pol).Src...)
+		r, bad, tolerated := parseLoneCR(src, v)
+		harness.Eval()
+		if bad != "" {
+			harness.Fail(rt, "variant-rejected", src, meta(v), "[%s] the program parses cleanly with single spaces but not with this trivia (lone CRs allowed): %s\nvariant: %q", v, bad, src)
+		}
+		if d := astx.Equal(r.Root, ref, astx.Structure); d != "" {
+			harness.Fail(rt, "structure-changed", src, metaShape(v, ref), "[%s] trivia with lone CRs changed the tree (variant vs reference): %s\nvariant: %q\nreference: %q", v, d, src, refSrc)
+		}
+		if tolerated > 0 {
+			harness.KnownSeen("lone-cr-newline")
+			harness.Excluded("tolerated:lone-cr-newline (warnings)")
+			harness.NonTrivial(src, fmt.Sprintf("[%s lone CRs=%d] %q", v, tolerated, trunc(src, 200)))
+		}
+		harness.Class("lone-cr-variant")
+	})
+}
+
 // TestLargeVariants: programs of several thousand tokens (more than one
 // 1024-entry pool block of tokens per parse) under different trivia, so that
 // which token lands on which pool slot shifts between the renderings.
